@@ -41,6 +41,9 @@ pub fn profile() -> Profile {
     p.unused_structs = (0, 3);
     p.vin_as_storage = 2;
     p.out_as_storage = 2;
+    p.overrides = 3;
+    p.ov_sized_array = 5;
+    p.struct_helpers = 3;
     p
 }
 
